@@ -710,6 +710,15 @@ def route_db(ctx, model, case, samples, save_all):
     route = "db" if save_all else "db-min"
     st, e = attempt(lambda: (paths.save_samples(samples), s.commit()))
     fit_id = paths.identifier if st == "ok" else None
+    # the row's own best fit (what a search writes at every update): the instance and likelihood of the sample of
+    # highest likelihood
+    want_best = None
+    if st == "ok":
+        st_b, e_b = attempt(lambda: (paths.save_summary(samples, None, None), s.commit()))
+        if st_b == "ok":
+            lls_ = [h2f(r["ll"]) for r in spec["rows"]]
+            if lls_ and not any(x != x for x in lls_):
+                want_best = max(lls_)
     s.close()
     if st == "err":
         ctx.hit(f"{route}:save-rejected")
@@ -744,6 +753,19 @@ def route_db(ctx, model, case, samples, save_all):
         if st == "err" or loaded is None:
             ctx.fail(classify(model, case, "load-raises", route), f"{route}: Fit.samples of a model the fit accepted raises / is None", dict(case, route=route), loaded)
             return None
+        if want_best is not None:
+            ctx.hit(f"route:{route}-row-best-fit")
+            st_i, got_i = attempt(lambda: (fit.max_log_likelihood, X.canon_inst(X.inst_of(fit.instance))))
+            best_rows = [r for r in spec["rows"] if h2f(r["ll"]) == want_best]
+            st_w, want_insts = attempt(lambda: [X.canon_inst(X.inst_of(model.instance_from_vector([h2f(x) for x in r["v"]], ignore_prior_limits=True)))
+                                                for r in best_rows])
+            if st_i == "err":
+                ctx.fail(f"C09-{route}-row-best-fit", f"{route}: reading the row's best-fit instance raises", dict(case, route=route), got_i)
+            elif st_w == "ok" and (got_i[0] != want_best or all(
+                    json.dumps(got_i[1], sort_keys=True).replace("8000000000000000", "0000000000000000")  # (-0.0 is stored as 0.0)
+                    != json.dumps(w, sort_keys=True).replace("8000000000000000", "0000000000000000") for w in want_insts)):
+                ctx.fail(f"C09-{route}-row-best-fit", f"{route}: the fit row's instance / max_log_likelihood are not those of a sample of highest likelihood",
+                         dict(case, route=route), {"max_log_likelihood": got_i[0], "want": want_best})
         # Fit.samples carries the model stored beside it (ids kept): use as is
         check_loaded(ctx, model, case, f"{route}:Fit.samples", loaded, tr, exp, multiset=multiset)
         out["loaded"] = [canon_sample(x) for x in loaded.sample_list]
